@@ -47,7 +47,10 @@ def _check_uuid(uuid_str, spec_version, interoperability):
 
     uuid_obj = uuid.UUID(uuid_str)
 
-    ok = uuid_obj.variant == uuid.RFC_4122
+    # uuid.UUID() also accepts braces, a "urn:uuid:" prefix and missing
+    # hyphens; STIX identifiers use the plain hyphenated form only.
+    ok = uuid_obj.variant == uuid.RFC_4122 and \
+        str(uuid_obj) == uuid_str.lower()
     if ok and spec_version == "2.0":
         ok = uuid_obj.version == 4
 
